@@ -1341,6 +1341,58 @@ def gen_hist(rng, plot=None, session=None):
     return steps
 
 
+def session_requests(case):
+    """the history of a case in the vocabulary of the Lean session model (Model/Session.lean:
+    Req), as the driver command `fit.session` reads it.  Values returned by fit_function, other
+    fits and other measurements are NEW OBJECTS with covariances among themselves only."""
+    m = n_params(case)
+    codes = {"print_style": {"default": 0, "scientific": 1, "latex": 2}, "unit_style": {"exponents": 0, "fraction": 1}}
+    out = []
+    for st in case.get("hist") or []:
+        k = st[0]
+        if k in ("switch", "reread"):
+            out.append(["new", 1, []])
+        elif k == "plot":
+            out.append(["new", 0, []])
+        elif k == "global-mc":
+            out += [["set", "error_method", 1], ["set", "mc_sample_size", 50], ["new", 1, []],
+                    ["set", "error_method", 0], ["set", "mc_sample_size", 10000]]
+        elif k == "config":
+            _, changes, _read, back = st
+            for name, value, _route in changes:
+                v = codes.get(name, {}).get(value) if isinstance(value, str) else (
+                    int(value[0]) if isinstance(value, list) else int(value))
+                out.append(["set", name, v])
+            out.append(["new", 1, []])
+            if back == "setters":
+                out += [["set", name, 0] for name, _v, _r in changes]
+            else:
+                out.append(["reset-config"])
+        elif k == "session":
+            w = st[1]
+            if w in ("reset_default_configuration", "settings.reset"):
+                out.append(["reset-config"])
+            elif w == "clear_unit_definitions":
+                out.append(["clear-units"])
+            elif w == "define_unit":
+                out += [["define-unit", "N"], ["new", 1, []]]
+            elif w == "other-fit":
+                out.append(["new", 2, [[0, 1]]])
+            elif w == "same-fit-again":
+                out.append(["new", m, [[i, j] for i in range(m) for j in range(i + 1, m)]])
+            elif w == "other-measurements":
+                out.append(["new", 3, [[0, 1]]])
+            elif w == "fault":
+                out += [["rejected"]] * 5
+            elif w == "gc":
+                out += [["new", 1, []], ["collect"]]
+            else:
+                raise KeyError(w)
+        else:
+            raise KeyError(k)
+    return {"cmd": "fit.session", "m": m, "reqs": out}
+
+
 def _apply_setting(q, name, value, route):
     st = q.get_settings()
     if name == "print_style":
